@@ -334,6 +334,12 @@ def schema_method_receiver_or_async(subject):
     return subject.get("s") is not None and go(subject["s"])
 
 @predicate
+def recursive_definition_nested_deeply(subject):
+    """a recursive definition (reader recursion = nesting depth of the input) at a depth of 10 000 levels or more"""
+    t = subject.get("t") or {}
+    return t.get("k") == "lib" and t.get("s", "").startswith("Rec") and subject.get("depth", 0) >= 10000
+
+@predicate
 def contains_result(subject):
     return any_node(subject["t"], lambda x: x["k"] == "res")
 
